@@ -207,7 +207,9 @@ async fn client_app(net: Net, reqs: Vec<Req>, o: Shared<Obs>, sp: Spawner, go: c
     let mut sr = sr;
     for (k, r) in reqs.iter().enumerate() {
         let req = http::Request::builder().method("POST").uri("https://example.com/up").body(()).unwrap();
-        let s = match sr.send_request(req).await {
+        // every other request goes through a clone of the handle, dropped right after: the request keeps the client's limits
+        let started = if k % 2 == 1 { sr.clone().send_request(req).await } else { sr.send_request(req).await };
+        let s = match started {
             Ok(s) => s,
             Err(e) => {
                 note_err(&o, k, "send_request", err_info(&e));
